@@ -7,7 +7,8 @@ EXTRA = ["[1 c : [2 d] e] f", "[1 a : [2 b : c] [1 d : [2 e]] g] a", "[2 [1 c : 
          "'c e r g' d 'ce n67'4,50,99", "{c d [2 e] {f g}8^}2 a", "c&c&d e Sub{ c& } d", "c&d&e& f g&g a", "l8 c&d l4 e&e&e f", "`c `d \"e \"f o9 ``c o0 \"c d",
          "v.Random(10) t.Random(4) q.Random(20) o.Random(2) c d e f g", "v.Random(1) c d e v.Random(0) f", "q++ q++ v++ ( ( c ) d v__2 50 e", "? c d ? e",
          "[ c d ]", "[3 c : ]", ": c ] d", "[2 [2 c : d] : e] f", "{ }4 c", "{c}0 d", "Sub{ Sub{ c } d } e", "'c' 'd'0 'e',0 'f',,0 g", "n60,4,0,0 n61,,100,127,-5",
-         "r-4 c r4 d r-1 e", "l0 c d l-4 e", "o11 c o-1 d", "v200 c v-5 d", "q0 c q200 d q100 e", "t50 c t-50 d", "c,0,0 d,100,127,5,9 e,,,,0", "TR(1) 'c&e' d", "c4& 'ce' d"]
+         "r-4 c r4 d r-1 e", "l0 c d l-4 e", "o11 c o-1 d", "v200 c v-5 d", "q0 c q200 d q100 e", "t50 c t-50 d", "c,0,0 d,100,127,5,9 e,,,,0", "TR(1) 'c&e' d", "c4& 'ce' d",
+         "'ceg'4,, d", "'ce'2,50, e", "v70 'c,,90 e'8,, f", "'ce',,-5 d", "'ce',-3,-1 d", "TimeBase(480) c d 'ce' r", "TimeBase=960 TR(1) c TR(0) d"]
 
 def g_upper(rng):
     r = rng.randint
